@@ -159,6 +159,78 @@ theorem poseidon1_meaning (t : List TLine) (res : TV)
 
 end poseidon
 
+section small
+variable {p : ℕ} [Fact p.Prime]
+
+/-- **InsertionRound** of depth `d` (`2^d ≤ p`): the recorded constraints are satisfiable with
+result `out` iff the index fits the tree, the sibling path opens an EMPTY leaf under the running
+root, and `out` is the root with the commitment written there. -/
+theorem insertionRound_meaning (d : ℕ) (hd : 2 ^ d ≤ p) (t : List TLine) (res : TV)
+    (ht : traceOf ["Poseidon2"] (traceInsertionRound d) = t)
+    (hr : resultOf ["Poseidon2"] (traceInsertionRound d) = res)
+    (K : List ℕ → List (ZMod p) → List (ZMod p))
+    (idx item prev out : ZMod p) (proof : List (ZMod p)) (hl : proof.length = d) :
+    (∃ env : Env p, InputsAre env (idx :: item :: prev :: proof) ∧
+        denote p (Sat.poseidonH p) K env t ∧ evalTV env res = out) ↔
+      idx.val < 2 ^ d ∧ recover (Sat.poseidonH p) 0 proof (bitsLE d idx.val) = prev ∧
+        recover (Sat.poseidonH p) item proof (bitsLE d idx.val) = out := by
+  subst ht hr
+  rw [← Smtb.C01.insertionRound_sat_iff (fun a b => Poseidon.poseidon2 a b) (Sat.poseidonH p)
+      Sat.poseidon2_hH d hd idx item prev proof (· = out),
+    Smtb.Properties.TraceSound.insertionRound_trace_iff (Sat.poseidonH p) K _ Sat.poseidon2_hH d
+      idx item prev proof hl]
+
+/-- **DeletionRound** of depth `d` (`2^(d+1) ≤ p`): a real slot (index `< 2^d`) must open the
+item under the running root and yields the root with 0 written; a padding slot
+(`2^d ≤ index < 2^(d+1)`) yields the running root unchanged; nothing else is satisfiable. -/
+theorem deletionRound_meaning (d : ℕ) (hd : 2 ^ (d + 1) ≤ p) (t : List TLine) (res : TV)
+    (ht : traceOf ["Poseidon2"] (traceDeletionRound d) = t)
+    (hr : resultOf ["Poseidon2"] (traceDeletionRound d) = res)
+    (K : List ℕ → List (ZMod p) → List (ZMod p))
+    (root idx item out : ZMod p) (proof : List (ZMod p)) (hl : proof.length = d) :
+    (∃ env : Env p, InputsAre env (root :: idx :: item :: proof) ∧
+        denote p (Sat.poseidonH p) K env t ∧ evalTV env res = out) ↔
+      (idx.val < 2 ^ d ∧ recover (Sat.poseidonH p) item proof (bitsLE d idx.val) = root ∧
+          recover (Sat.poseidonH p) 0 proof (bitsLE d idx.val) = out)
+      ∨ (2 ^ d ≤ idx.val ∧ idx.val < 2 ^ (d + 1) ∧ root = out) := by
+  subst ht hr
+  rw [← Smtb.C02.deletionRound_sat_iff (fun a b => Poseidon.poseidon2 a b) (Sat.poseidonH p)
+      Sat.poseidon2_hH d hd root idx item proof (· = out),
+    Smtb.Properties.TraceSound.deletionRound_trace_iff (Sat.poseidonH p) K _ Sat.poseidon2_hH d
+      root idx item proof hl]
+
+/-- **ReducedModRCheck** over the field itself on `n` input wires: below the bit length of the
+modulus nothing is constrained; from there on the inputs must be booleans denoting
+(little-endian) a number `< p`. -/
+theorem reducedModRCheck_meaning (n : ℕ) (t : List TLine)
+    (ht : traceOf ["Poseidon2"] (traceReducedModRCheck p n) = t)
+    (H : ZMod p → ZMod p → ZMod p) (K : List ℕ → List (ZMod p) → List (ZMod p))
+    (inp : List (ZMod p)) (hl : inp.length = n) :
+    (∃ env : Env p, InputsAre env inp ∧ denote p H K env t) ↔
+      inp.length < bitLen p ∨
+      (bitLen p ≤ inp.length ∧ ∃ bs : List Bool, inp = bs.map Sat.embed ∧ Sat.natOfBits bs < p) := by
+  subst ht
+  have h1 := Smtb.Properties.C06.reducedModRCheck_sat inp (fun _ => True)
+  have h2 := Smtb.Properties.TraceSound.reducedModRCheck_trace_iff H K p n inp hl (fun _ => True)
+  simp only [and_true] at h1 h2
+  rw [← h1, h2]
+
+omit [Fact p.Prime] in
+/-- **FromBinaryBigEndian** on `n` input wires: the byte-swapped inputs must be booleans and the
+result is their little-endian recomposition. -/
+theorem fromBinaryBigEndian_meaning (n : ℕ) (t : List TLine) (res : TV)
+    (ht : traceOf ["Poseidon2"] (traceFromBinaryBigEndian n) = t)
+    (hr : resultOf ["Poseidon2"] (traceFromBinaryBigEndian n) = res)
+    (H : ZMod p → ZMod p → ZMod p) (K : List ℕ → List (ZMod p) → List (ZMod p))
+    (inp : List (ZMod p)) (hl : inp.length = n) (out : ZMod p) :
+    (∃ env : Env p, InputsAre env inp ∧ denote p H K env t ∧ evalTV env res = out) ↔
+      (∀ b ∈ swapByteOrder inp, isBool b) ∧ recompose (swapByteOrder inp) = out := by
+  subst ht hr
+  rw [← Smtb.Properties.C06.fromBinaryBigEndian_sat inp (· = out),
+    Smtb.Properties.TraceSound.fromBinaryBigEndian_trace_iff H K n inp hl]
+
+end small
+
 #print axioms insertion_circuit_meaning
 #print axioms deletion_circuit_meaning
 #print axioms insertionProof_meaning
@@ -166,5 +238,9 @@ end poseidon
 #print axioms toReducedBigEndian_meaning
 #print axioms poseidon2_meaning
 #print axioms poseidon1_meaning
+#print axioms insertionRound_meaning
+#print axioms deletionRound_meaning
+#print axioms reducedModRCheck_meaning
+#print axioms fromBinaryBigEndian_meaning
 
 end Smtb.Properties.GoTrace
